@@ -142,7 +142,7 @@ def encodeDHCP4 (b : Bytes) (a : EncArgs) (tail : List UInt8) : Outcome Bytes :=
     do
       let (placed, pos) ← appendOptions b.length (optSet a.opts 53 [a.mt]) a.order tail
       let n := 240 + pos
-      if n ≥ b.length then .panic          -- p[n] = End
+      if n ≥ b.length then .ok []          -- no room for the end option: nil (fix 4da685d; before: p[n] = End out of range)
       else
         let body := hdr ++ placed ++ [255]
         .ok (body ++ zeros (300 - body.length))
